@@ -272,14 +272,36 @@ def rule_d(prog, rep):
     else:
         rep.violation('C19.d', 'Config::update_quorum', u.loc, 'the quorum is not recomputed from the configured value and the current peers',
                       key='C19.d/update_quorum')
-    # every peers change re-computes the quorum
+    # every peers change re-computes the quorum: wherever the election replaces its peer set (`*self.peers = ..`), the same
+    # function goes on to Config::update_quorum(..)? on every path (the pairing may live in election_round or in a helper of it)
+    def is_peers_set(nd):
+        return nd.get('k') == 'assign' and nd['l'].get('k') == 'unary' and nd['l'].get('op') == 'Deref' and \
+            nd['l']['e'].get('k') == 'field' and nd['l']['e']['name'] == 'peers'
+
+    def cl_peers(nd, anc):
+        if is_peers_set(nd):
+            return 'set'
+        if nd.get('k') == 'call' and callee(nd) == 'config::Config::update_quorum':
+            return 'upd'
+        return None
+    n_sites, bad_fn = 0, None
+    for g in crate.top_fns():
+        if not g.path.startswith(EL + '::'):
+            continue
+        sets = [nd for nd, a in crate.walk_fn(g) if is_peers_set(nd)]
+        if not sets:
+            continue
+        n_sites += len(sets)
+        for (ex, t, v) in Tracer(crate, cl_peers, inline_local=False).run_fn(g):
+            tb = [base(x) for x in t if '@' not in x]
+            for i, x in enumerate(tb):
+                if x == 'set' and 'upd' not in tb[i + 1:]:
+                    bad_fn = g
     er = crate.fn(f'{EL}::election_round')
-    n_set = [nd for nd, a in crate.walk_fn(er) if nd.get('k') == 'assign' and nd['l'].get('k') == 'unary' and 'peers' in str(nd['l'])[:200]]
-    n_upd = crate.calls(er, lambda c: c == 'config::Config::update_quorum')
-    if n_set and len(n_set) == len(n_upd):
-        rep.ok('C19.d', 'election_round:peers-change', er.loc, f'{len(n_set)} peer-set updates, each followed by update_quorum')
+    if n_sites and bad_fn is None:
+        rep.ok('C19.d', 'election_round:peers-change', er.loc, f'{n_sites} peer-set update(s), each followed by update_quorum on every path')
     else:
-        rep.violation('C19.d', 'election_round:peers-change', er.loc, f'{len(n_set)} peer-set updates but {len(n_upd)} update_quorum calls',
+        rep.violation('C19.d', 'election_round:peers-change', (bad_fn or er).loc, f'{n_sites} peer-set updates; one is not followed by update_quorum',
                       key='C19.d/election_round/update_quorum')
 
 
